@@ -141,11 +141,17 @@ def run_one(tape, cfg):
                                     op=op)
         else:
             results = []
-            for i in range(3):
+            sampled = bag.random_sample(prob, random_state=rs)
+            for i in range(4):
                 r = run if i == 0 else sr.SimRun(tape)
                 with r:
-                    b2 = make_bag(parts) if i == 2 else bag   # a separately built, equal bag
-                    results.append(list(b2.random_sample(prob, random_state=rs).compute(scheduler=r.get)))
+                    if i <= 1:
+                        coll = sampled                       # recomputation of the very same collection
+                    elif i == 2:
+                        coll = bag.random_sample(prob, random_state=rs)          # built again
+                    else:
+                        coll = make_bag(parts).random_sample(prob, random_state=rs)  # equal, separate bag
+                    results.append(list(coll.compute(scheduler=r.get)))
                 digests.append(r.sim.digest())
                 if i:
                     out.probe("random_sample_recomputed")
